@@ -53,7 +53,9 @@ func VerifC01X() {
 	c360, c180 := vRI(360), vRI(180)
 	lo := vRSub(vRDiv(vRMul(vRI(x), c360), nr), c180)
 	hi := vRSub(vRDiv(vRMul(vRAdd(vRI(x), vRI(1)), c360), nr), c180)
-	eps := vRDiv(vRDiv(c360, nr), vRI(4096))
+	// the evaluation error of floor(2^h*((lon+180)/360)) is below 360*2^-52 degrees at every zoom (one rounding of
+	// the sum, one of the quotient, the power-of-two product is exact); the band is twice that
+	eps := vRDiv(c360, vRI(int64(1)<<51))
 	lr := vR(lonp)
 	nearLo := vRLt(vRSub(lo, eps), lr) && vRLt(lr, vRAdd(lo, eps))
 	nearHi := vRLt(vRSub(hi, eps), lr) && vRLt(lr, vRAdd(hi, eps))
